@@ -84,6 +84,15 @@ def scalars(bits, rng, n_random):
             s.add(k)
             if k + R < top and rng.random() < 0.3:
                 s.add(k + R)
+    if bits >= 256:
+        # a multiple of the group order plus / minus an offset of every magnitude: the bands between the fixed points of the reduction
+        # (conditional subtractions of r, 2r) and the constants of the decompositions (x^2 ~ 2^127.4, lambda) are found by size, not by value
+        for base in (R, 2 * R):
+            for j in list(range(8, 256, 8)) + [63, 65, 126, 127, 129, 130]:
+                off = rng.getrandbits(j) | (1 << (j - 1))
+                for v in (base + off, base - off):
+                    if 0 <= v < top:
+                        s.add(v)
     out = sorted(v % top for v in s if v >= 0)
     for _ in range(n_random):
         out.append(rng.getrandbits(bits))
